@@ -1,10 +1,12 @@
 import XMT.Drv.C10
 import XMT.Drv.C11
+import XMT.Drv.C17
 
 def dispatch (line : String) : String :=
   match (line.trimAscii.toString.splitOn " ").filter (· ≠ "") with
   | "C10" :: args => XMT.Drv.C10.handle args
   | "C11" :: args => XMT.Drv.C11.handle args
+  | "C17" :: args => XMT.Drv.C17.handle args
   | _ => "bad-op"
 
 partial def loop (h : IO.FS.Stream) (out : IO.FS.Stream) : IO Unit := do
